@@ -56,6 +56,12 @@ CLAIMS.update({
     text="Theorems C11_resume (construction over a stored state returns the configuration unchanged: no callback, no write, nothing queued; sync rtc on/off and async), C11_idempotent (activate_initial_state on a machine at rest is the identity), C11_start_fresh / C11_async_defers / C11_async_initial_first (over a fresh model exactly one __initial__ trigger is queued; the async engine defers it and it is ahead of the first event in the FIFO queue), C11_initial_block / C11_initial_stores (that trigger only assigns the start state's value and runs its enter callbacks), C11_state_stays (a stored state never becomes none again, so activation happens once). Correspondence: every state value (and invalid ones) as stored value, start_value, repeated activation/construction at random points, enter callbacks that send events, sync/async, rtc on/off.",
     design="7 C11"),
 })
+CLAIMS.update({
+  "C13": dict(
+    technique="Lean 4 proof (allowed_events as order-preserving de-duplication; not-allowed events leave the configuration untouched, for every handler) + model/implementation correspondence over all calling styles and attribute names + Spec monitor",
+    text="Theorems C13_allowed_events (no duplicates; e listed iff a transition leaving the state carries it; order of first use), C13_events_all, C13_unknown (for both processing modes: an event bound to no transition of the current state — any undeclared name, incl. the reserved __initial__ once a state is held — changes nothing in the configuration and yields TransitionNotAllowed(event,state) or None). In the model all calling styles are `send` by construction; that the real styles (sm.send, event method, items of sm.events / sm.allowed_events, triggers bound with bind_events_to) coincide is checked by the correspondence, which also sends every attribute name of the machine (dir(StateMachine), state ids, dunders, near-miss spellings).",
+    design="7 C13"),
+})
 NOT_APPLICABLE = {}
 
 def main():
